@@ -86,13 +86,13 @@ Proof. intros il d s n n' c H. destruct s; try discriminate; reflexivity. Qed.
 Lemma use_ok_lstmt : forall il d dd s n c, is_decl s = false ->
   use_ok dd (t_lstmt il d s n c) = use_ok dd (t_lstmt true d s 0 0).
 Proof.
-  intros il d dd s n c H. destruct s as [| |x a|x a| | | | |]; try discriminate; try reflexivity;
+  intros il d dd s n c H. destruct s as [| |x a|x a| | | | | |]; try discriminate; try reflexivity;
     destruct a; reflexivity.
 Qed.
 
 Lemma t_decl_use : forall il d s, is_decl s = false -> use_ok d (t_lstmt true d s 0 0) = true -> t_decl il d s = d.
 Proof.
-  intros il d s H U. destruct s as [| |x a|x a| | | |x|xs ys]; try discriminate; try reflexivity;
+  intros il d s H U. destruct s as [| |x a|x a| | | |x|xs ys|]; try discriminate; try reflexivity;
     try (destruct a; reflexivity).
   - (* x = x *)
     unfold t_decl, t_lstmt in *. cbn [to_s elab1 fst snd use_ok] in *.
@@ -114,7 +114,7 @@ Proof.
 Qed.
 
 Section Step.
-Variables (in_loop : bool) (st : fstate) (pst : pstate) (t : tenv) (c : Z).
+Variables (in_loop : bool) (st : fstate) (pst : pstate) (fe : tstmt -> tenv) (t : tenv) (c : Z).
 Hypothesis HI : Inv st.
 Hypothesis HS : Sim pst st.
 Hypothesis HA : LenAgree t pst.
@@ -131,10 +131,34 @@ Proof.
   - unfold list_len. rewrite Hlk. now rewrite (rep_size _ _ _ Hr).
 Qed.
 
+(* ... also inside a function body: a parameter is never folded, a global is folded against its copy at the first call *)
+Lemma s_len_py : forall s n, needs_len s = true ->
+  match s with
+  | TCallLen _ p y _ _ => Z.eqb y p || (mem y decl && fold_agrees (fe s) t y) = true
+  | _ => True
+  end ->
+  p_len pst (len_name s) = POk n -> s_len fe t st s = n.
+Proof.
+  intros s n N G P. destruct s; try discriminate; cbn [s_len len_name] in *.
+  - now apply f_len_py.
+  - unfold fn_env. rewrite t_cur_untrack. unfold mem. cbn [existsb]. rewrite orb_false_r.
+    unfold p_len in P. destruct (Z.eqb y p) eqn:E.
+    + destruct (p_ref pst x) as [o|] eqn:R; simpl in P; try discriminate. injection P as <-.
+      destruct (sim_var pst st x o HI HS R) as (Py & Ho & l & Fy & Hlk & Hr).
+      unfold list_len. rewrite Hlk. now rewrite (rep_size _ _ _ Hr).
+    + destruct (p_ref pst y) as [o|] eqn:R; simpl in P; try discriminate. injection P as <-.
+      destruct (sim_var pst st y o HI HS R) as (Py & Ho & l & Fy & Hlk & Hr).
+      simpl in G. apply andb_true_iff in G. destruct G as [_ G]. unfold fold_agrees in G.
+      destruct (t_cur (fe (TCallLen x p y sg k)) y) as [c0|] eqn:E0.
+      * destruct (t_cur t y) as [c1|] eqn:E1; try discriminate. apply Nat.eqb_eq in G.
+        rewrite <- G. now rewrite (HA y c1 o E1 Py).
+      * unfold list_len. rewrite Hlk. now rewrite (rep_size _ _ _ Hr).
+Qed.
+
 Lemma step_use : forall s g l pst' out,
-  t_use_ok decl t (s, g) = true ->
+  t_use_ok fe decl t (s, g) = true ->
   tp_stmt in_loop c decl pst s = POk l -> p_exec in_loop pst l = POk (pst', out) ->
-  exists st', f_exec in_loop st (t_lstmt in_loop decl s (f_len t st (len_name s)) c) = Safe (st', out) /\
+  exists st', f_exec in_loop st (t_lstmt in_loop decl s (s_len fe t st s) c) = Safe (st', out) /\
     Inv st' /\ Sim pst' st' /\ map fst (f_glob st') = decl /\ LenAgree (track1 (is_gated g) t s) pst'.
 Proof.
   intros s g l pst' out U T P. unfold t_use_ok in U.
@@ -142,10 +166,10 @@ Proof.
   rename U into Ud. rename U3 into Uu. rename U2 into Ug. rename U1 into Ur. rename U0 into Um.
   apply negb_true_iff in Ud.
   (* the statement the firmware executes is the one CPython executes *)
-  assert (El : t_lstmt in_loop decl s (f_len t st (len_name s)) c = l).
+  assert (El : t_lstmt in_loop decl s (s_len fe t st s) c = l).
   { unfold tp_stmt in T. destruct (needs_len s) eqn:N.
     - destruct (p_len pst (len_name s)) as [n|] eqn:Pn; simpl in T; try discriminate. injection T as <-.
-      now rewrite (f_len_py _ _ Pn).
+      rewrite (s_len_py s n N); auto. destruct s; auto.
     - injection T as <-. now apply lstmt_len_indep. }
   rewrite El.
   assert (Ul : use_ok decl l = true) by (rewrite <- El, use_ok_lstmt; auto).
@@ -177,7 +201,7 @@ Proof.
           apply t_remove_first_len in E1. lia.
         * destruct cur; simpl in *; lia.
     - eapply agree_upd; eauto. intros cur' Hc. congruence. }
-  destruct s as [x items|x cm|x a|x a|x i|x i|x y sg k|x|xs ys]; try discriminate.
+  destruct s as [x items|x cm|x a|x a|x i|x i|x y sg k|x|xs ys|x p y sg k]; try discriminate.
   - (* append *)
     destruct a as [v|off|y i]; unfold t_lstmt in El; cbn [to_s elab1 fst] in El; subst l; cbn [p_exec] in P;
       destruct (p_ref pst x) as [o|] eqn:R; simpl in P; try discriminate.
@@ -237,20 +261,25 @@ Proof.
     cbn [p_glob] in Ha. rewrite tstore_assoc in Ha; auto.
     + rewrite Ey in Ha. unfold p_obj. cbn [p_objs]. exact (HA y cur o Hc Ha).
     + intros w Hw. apply assoc_in_names. now apply I2p.
+  - (* h(x) *)
+    unfold t_lstmt in El; cbn [to_s elab1 fst] in El; subst l; cbn [p_exec] in P.
+    destruct (p_ref pst x) as [o|]; simpl in P; try discriminate.
+    match type of P with context [py_index ?a ?b] => destruct (py_index a b) end; try discriminate.
+    injection P as <- <-. exact HA.
 Qed.
 
 End Step.
 
 (* ------------------------------------------------------------------ blocks *)
-Lemma body_sim : forall c ss t st pst pst' out,
+Lemma body_sim : forall (fe : tstmt -> tenv) c ss t st pst pst' out,
   Inv st -> Sim pst st -> LenAgree t pst ->
-  t_body_ok t (map fst (f_glob st)) ss = true ->
+  t_body_ok fe t (map fst (f_glob st)) ss = true ->
   tp_block true c (map fst (f_glob st)) pst ss = POk (pst', out) ->
-  exists st', tf_block true c t (map fst (f_glob st)) st ss = Safe (st', out) /\ Inv st' /\ Sim pst' st' /\
+  exists st', tf_block true c fe t (map fst (f_glob st)) st ss = Safe (st', out) /\ Inv st' /\ Sim pst' st' /\
     map fst (f_glob st') = map fst (f_glob st) /\
     LenAgree (fst (track true t (map fst (f_glob st)) ss)) pst'.
 Proof.
-  intros c. induction ss as [|[s g] r IH]; intros t st pst pst' out HI HS HA G P.
+  intros fe c. induction ss as [|[s g] r IH]; intros t st pst pst' out HI HS HA G P.
   - simpl in *. injection P as <- <-. exists st. auto.
   - cbn [t_body_ok] in G. apply andb_true_iff in G. destruct G as [U G].
     assert (Ed : t_decl true (map fst (f_glob st)) s = map fst (f_glob st)).
@@ -262,7 +291,7 @@ Proof.
       destruct (p_exec true pst l) as [[p1 o1]|] eqn:E1; cbn [pbind] in P; try discriminate.
       destruct (tp_block true c (map fst (f_glob st)) p1 r) as [[p2 o2]|] eqn:E2; cbn [pbind] in P; try discriminate.
       injection P as <- <-.
-      destruct (step_use true st pst t c HI HS HA s g l p1 o1 U T E1) as (st1 & F1 & HI1 & HS1 & N1 & HA1).
+      destruct (step_use true st pst fe t c HI HS HA s g l p1 o1 U T E1) as (st1 & F1 & HI1 & HS1 & N1 & HA1).
       rewrite <- N1 in G, E2.
       destruct (IH _ st1 p1 p2 o2 HI1 HS1 HA1 G E2) as (st2 & F2 & HI2 & HS2 & N2 & HA2).
       rewrite N1 in F2, HA2, N2.
@@ -302,7 +331,7 @@ Lemma setup_sim_t : forall ss t st pst pst' out,
   Inv st -> Sim pst st -> LenAgree t pst ->
   t_setup_ok t (map fst (f_glob st)) (ungated ss) = true ->
   tp_block false 0 (map fst (f_glob st)) pst (ungated ss) = POk (pst', out) ->
-  exists st', tf_block false 0 t (map fst (f_glob st)) st (ungated ss) = Safe (st', out) /\ Inv st' /\ Sim pst' st' /\
+  exists st', tf_block false 0 (fun _ => []) t (map fst (f_glob st)) st (ungated ss) = Safe (st', out) /\ Inv st' /\ Sim pst' st' /\
     snd (track false t (map fst (f_glob st)) (ungated ss)) = map fst (f_glob st') /\
     LenAgree (fst (track false t (map fst (f_glob st)) (ungated ss))) pst'.
 Proof.
@@ -317,10 +346,10 @@ Proof.
       cbn [pbind] in P; try discriminate.
     injection P as <- <-.
     pose proof HS as (Pl & Pn & Pnm & Pb & Hv).
-    assert (STEP : exists st1, f_exec false st (t_lstmt false (map fst (f_glob st)) s (f_len t st (len_name s)) 0) = Safe (st1, o1) /\
+    assert (STEP : exists st1, f_exec false st (t_lstmt false (map fst (f_glob st)) s (s_len (fun _ => []) t st s) 0) = Safe (st1, o1) /\
                      Inv st1 /\ Sim p1 st1 /\ map fst (f_glob st1) = t_decl false (map fst (f_glob st)) s /\
                      LenAgree (track1 false t s) p1).
-    { assert (DECL : forall x cs v, l = t_lstmt false (map fst (f_glob st)) s (f_len t st (len_name s)) 0 ->
+    { assert (DECL : forall x cs v, l = t_lstmt false (map fst (f_glob st)) s (s_len (fun _ => []) t st s) 0 ->
                 setup_ok (map fst (f_glob st)) [l] = Some (map fst (f_glob st) ++ [x]) ->
                 mem x (map fst (f_glob st)) = false ->
                 t_decl false (map fst (f_glob st)) s = map fst (f_glob st) ++ [x] ->
@@ -337,7 +366,7 @@ Proof.
         apply agree_new; auto.
         - unfold mem in Hx. rewrite <- Pnm in Hx. now apply assoc_none_names in Hx.
         - intros y o Hy. now destruct (Hv y o Hy). }
-      destruct s as [x items|x cm|x a|x a|x i|x i|x y sg k|x|xs ys].
+      destruct s as [x items|x cm|x a|x a|x i|x i|x y sg k|x|xs ys|x p y sg k].
       - (* x = [..] *)
         apply andb_true_iff in U. destruct U as [U _]. apply negb_true_iff in U.
         unfold tp_stmt in T. cbn [needs_len] in T. injection T as <-.
@@ -354,41 +383,43 @@ Proof.
         eapply (DECL x (py_range cm) None); eauto.
         + cbn [setup_ok]. now rewrite U.
         + intros cur Hc. discriminate.
-      - apply andb_true_iff in U. destruct U as [U _].
+      - apply andb_true_iff in U. destruct U as [U _]. apply andb_true_iff in U. destruct U as [U _].
         assert (Ed := U). unfold t_use_ok in Ed. repeat (apply andb_true_iff in Ed; destruct Ed as [Ed ?]).
         apply negb_true_iff in Ed. rewrite (t_decl_use false _ _ Ed) by auto.
-        destruct (step_use false st pst t 0 HI HS HA _ None l p1 o1 U T E1) as (st1 & F1 & HI1 & HS1 & N1 & HA1).
+        destruct (step_use false st pst (fun _ => []) t 0 HI HS HA _ None l p1 o1 U T E1) as (st1 & F1 & HI1 & HS1 & N1 & HA1).
         exists st1. auto.
-      - apply andb_true_iff in U. destruct U as [U _].
+      - apply andb_true_iff in U. destruct U as [U _]. apply andb_true_iff in U. destruct U as [U _].
         assert (Ed := U). unfold t_use_ok in Ed. repeat (apply andb_true_iff in Ed; destruct Ed as [Ed ?]).
         apply negb_true_iff in Ed. rewrite (t_decl_use false _ _ Ed) by auto.
-        destruct (step_use false st pst t 0 HI HS HA _ None l p1 o1 U T E1) as (st1 & F1 & HI1 & HS1 & N1 & HA1).
+        destruct (step_use false st pst (fun _ => []) t 0 HI HS HA _ None l p1 o1 U T E1) as (st1 & F1 & HI1 & HS1 & N1 & HA1).
         exists st1. auto.
-      - apply andb_true_iff in U. destruct U as [U _].
+      - apply andb_true_iff in U. destruct U as [U _]. apply andb_true_iff in U. destruct U as [U _].
         assert (Ed := U). unfold t_use_ok in Ed. repeat (apply andb_true_iff in Ed; destruct Ed as [Ed ?]).
         apply negb_true_iff in Ed. rewrite (t_decl_use false _ _ Ed) by auto.
-        destruct (step_use false st pst t 0 HI HS HA _ None l p1 o1 U T E1) as (st1 & F1 & HI1 & HS1 & N1 & HA1).
+        destruct (step_use false st pst (fun _ => []) t 0 HI HS HA _ None l p1 o1 U T E1) as (st1 & F1 & HI1 & HS1 & N1 & HA1).
         exists st1. auto.
-      - apply andb_true_iff in U. destruct U as [U _].
+      - apply andb_true_iff in U. destruct U as [U _]. apply andb_true_iff in U. destruct U as [U _].
         assert (Ed := U). unfold t_use_ok in Ed. repeat (apply andb_true_iff in Ed; destruct Ed as [Ed ?]).
         apply negb_true_iff in Ed. rewrite (t_decl_use false _ _ Ed) by auto.
-        destruct (step_use false st pst t 0 HI HS HA _ None l p1 o1 U T E1) as (st1 & F1 & HI1 & HS1 & N1 & HA1).
+        destruct (step_use false st pst (fun _ => []) t 0 HI HS HA _ None l p1 o1 U T E1) as (st1 & F1 & HI1 & HS1 & N1 & HA1).
         exists st1. auto.
-      - apply andb_true_iff in U. destruct U as [U _].
+      - apply andb_true_iff in U. destruct U as [U _]. apply andb_true_iff in U. destruct U as [U _].
         assert (Ed := U). unfold t_use_ok in Ed. repeat (apply andb_true_iff in Ed; destruct Ed as [Ed ?]).
         apply negb_true_iff in Ed. rewrite (t_decl_use false _ _ Ed) by auto.
-        destruct (step_use false st pst t 0 HI HS HA _ None l p1 o1 U T E1) as (st1 & F1 & HI1 & HS1 & N1 & HA1).
+        destruct (step_use false st pst (fun _ => []) t 0 HI HS HA _ None l p1 o1 U T E1) as (st1 & F1 & HI1 & HS1 & N1 & HA1).
         exists st1. auto.
-      - apply andb_true_iff in U. destruct U as [U _].
+      - apply andb_true_iff in U. destruct U as [U _]. apply andb_true_iff in U. destruct U as [U _].
         assert (Ed := U). unfold t_use_ok in Ed. repeat (apply andb_true_iff in Ed; destruct Ed as [Ed ?]).
         apply negb_true_iff in Ed. rewrite (t_decl_use false _ _ Ed) by auto.
-        destruct (step_use false st pst t 0 HI HS HA _ None l p1 o1 U T E1) as (st1 & F1 & HI1 & HS1 & N1 & HA1).
+        destruct (step_use false st pst (fun _ => []) t 0 HI HS HA _ None l p1 o1 U T E1) as (st1 & F1 & HI1 & HS1 & N1 & HA1).
         exists st1. auto.
-      - apply andb_true_iff in U. destruct U as [U _].
+      - apply andb_true_iff in U. destruct U as [U _]. apply andb_true_iff in U. destruct U as [U _].
         assert (Ed := U). unfold t_use_ok in Ed. repeat (apply andb_true_iff in Ed; destruct Ed as [Ed ?]).
         apply negb_true_iff in Ed. rewrite (t_decl_use false _ _ Ed) by auto.
-        destruct (step_use false st pst t 0 HI HS HA _ None l p1 o1 U T E1) as (st1 & F1 & HI1 & HS1 & N1 & HA1).
-        exists st1. auto. }
+        destruct (step_use false st pst (fun _ => []) t 0 HI HS HA _ None l p1 o1 U T E1) as (st1 & F1 & HI1 & HS1 & N1 & HA1).
+        exists st1. auto.
+      - (* a call in front of the `def`: excluded *)
+        apply andb_true_iff in U. destruct U as [_ U]. discriminate. }
     destruct STEP as (st1 & F1 & HI1 & HS1 & N1 & HA1).
     rewrite <- N1 in G, E2.
     destruct (IH _ st1 p1 p2 o2 HI1 HS1 HA1 G E2) as (st2 & F2 & HI2 & HS2 & N2 & HA2).
@@ -411,7 +442,7 @@ Qed.
 
 Lemma passes_sim_t : forall t0 body cs st pst pst',
   Inv st -> Sim pst st -> LenAgree t0 pst ->
-  t_body_ok t0 (map fst (f_glob st)) body = true ->
+  t_body_ok (first_env t0 body) t0 (map fst (f_glob st)) body = true ->
   t_compat t0 (fst (track true t0 (map fst (f_glob st)) body)) = true ->
   tp_passes (map fst (f_glob st)) body pst cs = POk pst' ->
   exists st', tf_passes t0 (map fst (f_glob st)) body st cs = Safe st' /\ Inv st' /\ Sim pst' st'.
@@ -420,7 +451,7 @@ Proof.
   - injection P as <-. exists st. auto.
   - destruct (tp_block true c (map fst (f_glob st)) pst body) as [[p1 o1]|] eqn:E; cbn [pbind] in P; try discriminate.
     simpl in P.
-    destruct (body_sim c body t0 st pst p1 o1 HI HS HA G E) as (st1 & F & HI1 & HS1 & N1 & HA1).
+    destruct (body_sim (first_env t0 body) c body t0 st pst p1 o1 HI HS HA G E) as (st1 & F & HI1 & HS1 & N1 & HA1).
     unfold tf_pass. rewrite F. cbn [rbind]. rewrite clear_loc by auto. simpl.
     pose proof (compat_agree _ _ _ C HA1) as HA0.
     rewrite <- N1 in *. eapply IH; eauto.
@@ -500,6 +531,38 @@ Proof. exists [0; 0; 0]%Z. eexists. split; vm_compute; reflexivity. Qed.
 Lemma stale_rebind_oob : exists cs pst, run_py_t stale_rebind_setup stale_rebind_body cs = POk pst /\
   run_fw_t stale_rebind_setup stale_rebind_body cs = Unsafe OutOfBounds.
 Proof. exists [1; 0]%Z. eexists. split; vm_compute; reflexivity. Qed.
+
+Lemma stale_def_oob : exists cs pst, run_py_t stale_def_setup stale_def_body cs = POk pst /\
+  run_fw_t stale_def_setup stale_def_body cs = Unsafe OutOfBounds.
+Proof. exists [2]%Z. eexists. split; vm_compute; reflexivity. Qed.
+
+Lemma shadow_ok_guard : len_ok shadow_ok_setup shadow_ok_body = true.
+Proof. vm_compute. reflexivity. Qed.
+
+Lemma shadow_ok_python : exists pst, run_py_t shadow_ok_setup shadow_ok_body [0; 0]%Z = POk pst /\ p_live pst = 4.
+Proof. eexists. split; vm_compute; reflexivity. Qed.
+
+(* inside a function body len() of a parameter is NEVER folded: whatever the copies where the function is parsed, whatever the parameter
+   is called (the name of a global list included), the firmware evaluates __redu_len of the argument *)
+Theorem param_len_unfolded : forall fe t st x p sg k,
+  s_len fe t st (TCallLen x p p sg k) = Z.of_nat (list_len (f_lookup st x)).
+Proof.
+  intros. cbn [s_len]. unfold fn_env. rewrite t_cur_untrack. unfold mem. cbn [existsb].
+  now rewrite Z.eqb_refl.
+Qed.
+
+Theorem fn_env_param : forall td params p, In p params -> t_cur (fn_env td params) p = None.
+Proof.
+  intros td params p H. unfold fn_env. rewrite t_cur_untrack. unfold mem.
+  now rewrite (proj2 (existsb_eqb_In p params) H).
+Qed.
+
+(* ... and a global that no parameter shadows keeps the copy it has where the function is parsed *)
+Theorem fn_env_global : forall td params y, ~ In y params -> t_cur (fn_env td params) y = t_cur td y.
+Proof.
+  intros td params y H. unfold fn_env. rewrite t_cur_untrack. unfold mem.
+  destruct (existsb (Z.eqb y) params) eqn:E; auto. apply existsb_eqb_In in E. contradiction.
+Qed.
 
 Lemma stale_pop_oob : exists cs pst, run_py_t stale_pop_setup stale_pop_body cs = POk pst /\
   run_fw_t stale_pop_setup stale_pop_body cs = Unsafe OutOfBounds.
